@@ -447,7 +447,7 @@ class Nor(Logic):
 
         r = self.addOut("r", r)
 
-        mid = self.wire("Mid", lins[0].getWidth())
+        mid = self.wire("Mid", r.getWidth())
         
         # save inputs/outputs for RTL generation
         self.r = r
